@@ -541,6 +541,7 @@ func cutEngine(a Args) {
 			if ran%100 == 0 {
 				mon.Progress("cut", cs)
 			}
+			mon.Beat()
 			o := runCut(cc, a.Seed)
 			ran++
 			if o.tripped || cc.dir < 0 {
